@@ -885,7 +885,7 @@ fn expected_probes(scenario: &str) -> &'static [&'static str] {
 		"crash" | "power" => &["log_replayed_at_open", "gen:log_rotation_prefix", "gen:index_growth_swarm", "gen:edge_keys"],
 		"tree" => &["gen:tree_wide_node", "gen:tree_wide_sharing", "gen:tree_count_ops_repeated_in_tx", "gen:tree_unrepresentable_alone"],
 		"kv" | "sizes" | "btree" => &["gen:slot_reuse_prefix", "gen:edge_keys"],
-		"ioerr" | "drop" => &["gen:log_rotation_prefix", "gen:index_growth_swarm"],
+		"ioerr" | "drop" => &["gen:log_rotation_prefix", "gen:index_growth_swarm", "gen:many_kept_logs_prefix"],
 		"logfuzz" => &["logfuzz_field_overwritten", "gen:index_growth_swarm"],
 		"treelock" => &["gen:treelock_prefix"],
 		"admin" => &["gen:many_columns"],
